@@ -449,7 +449,7 @@ def run(run: Run):
     borrow(run, 'C18.R7', c08.r4, src, rt)
     run.floor('C18.R7', 50)
     run.rule('C18.R6', 'a sheet is addressed by its title through the title table only (shared with C02.R3)')
-    borrow(run, 'C18.R6', c02.r3, src)
+    borrow(run, 'C18.R6', c02.r3_both, src)
     run.floor('C18.R6', 2)
     run.floor('C18.R1', 8)
     run.floor('C18.R2', 6)
